@@ -81,10 +81,20 @@ def gen(ctx):
     from . import rtgen as R
     for a in R.boundary_update_cases():
         yield Case("RUN", a, tags=("handle-limits",))
+    for a in R.declared_kind_value_cases():
+        yield Case("RUN", a, tags=("declared-kind-x-value",))
     # the messages as the Datapath handle really builds them (register class incl. the volatile flag, index, value, order):
     # flows that call set_program with presets and update_field on every kind of variable
     for _ in range(4000 if ctx.thorough else 400):
         yield Case("RUN", R.gen_case(rng, n=rng.randrange(2, 10), adversarial=0.0, faults=0.0, stop=0.0), tags=("handle-messages",))
+    # ... and the same with the transport REFUSING some sends (round 5: a per-flow scratch buffer that a failed send left
+    # dirty made the next datagram of that flow [refused message][new message]): what reaches Ipc::send after a refusal must be
+    # exactly one honest message again
+    for _ in range(4000 if ctx.thorough else 400):
+        yield Case("RUN", R.gen_case(rng, n=rng.randrange(4, 16), adversarial=0.0, faults=rng.choice([0.15, 0.3]), stop=0.0), tags=("handle-messages-after-refused-sends",))
+    for k in (1, 2, 3):
+        yield Case("RUN", "ALG - 1 PROGS p1=%s NF sp:p1:- OR uf:%s=5,sp:p1:%s=7,uf:%s=9 SCRIPT 5:RD.1 5:CR.1.10.1460.1.2.3.4.- SF%d 5:MS.1.u:p1.7;9 5:MS.1.u:p1.7;9 SF1 6:CR.1.10.1460.1.2.3.4.- 6:MS.1.u:p1.1;2 5:MS.1.u:p1.3;4"
+                   % (R.hx(R.P1), R.hx("cwndcap"), R.hx("cwndcap"), R.hx("Cwnd"), k), tags=("handle-messages-after-refused-sends",))
     # exhaustive register table as single updates
     for c in CLASSES:
         for i in range(256):
